@@ -83,7 +83,7 @@ func recToSeed(m, p string, alias bool, extra Event) (seed []byte) {
 		e["seed2"] = ints(c2)
 	}
 	emit(merge(o.into(e), extra))
-	if len(keptSeeds) < 64 && len(s1) > 0 {
+	if !concMode && len(keptSeeds) < 64 && len(s1) > 0 {
 		keptSeeds, keptCopies, keptLines = append(keptSeeds, s1), append(keptCopies, seed), append(keptLines, nEvents)
 	}
 	return
